@@ -125,7 +125,10 @@ func leanStr(s string) string {
 	return sb.String()
 }
 
-type out struct{ lines []string }
+type out struct {
+	lines      []string
+	extraFiles map[string]string
+}
 
 func (o *out) nat(name string, c constant.Value, ok bool) {
 	if ok && c.Kind() == constant.Int {
@@ -402,6 +405,18 @@ func main() {
 			"def resolverErrorOnlyLogs : Bool := "+b(onlyLogs),
 			"def gmeClonesCallerConfig : Bool := "+b(gmeClones),
 			"def gcpConfigReturnsClone : Bool := "+b(retClone))
+	}
+
+	extractLocks(*repo, o)
+	for name, content := range o.extraFiles {
+		dst := filepath.Join(*outDir, name)
+		old, _ := os.ReadFile(dst)
+		if string(old) != content {
+			if err := os.WriteFile(dst, []byte(content), 0o644); err != nil {
+				fmt.Fprintln(os.Stderr, err)
+				os.Exit(1)
+			}
+		}
 	}
 
 	body := "/- GENERATED by tools/extract from /repo's working tree on every run. Do not edit. -/\nnamespace GcpVerif.Generated\n\n" +
